@@ -346,7 +346,18 @@ fn make_config(wl: &Workload) -> WalConfig {
     }
 }
 
+/// callers that ran into their 5 s ack timeout so far (coverage: the corpus must produce some)
+static TIMEOUTS_SEEN: std::sync::atomic::AtomicU64 = std::sync::atomic::AtomicU64::new(0);
+
+/// `group_commit_max_wait` values around the 5 s ack timeout of `write_durable` (virtual time, µs)
+const LONG_WAITS_US: [u64; 5] = [4_000_000, 4_998_000, 5_002_000, 10_000_000, 60_000_000]; // tokio timers have 1 ms granularity (deadlines round up): stay 2 ms off the tie, which is a race
+
 impl Workload {
+    /// the group-commit wait is long enough to compete with the callers' 5 s ack timeout: the workload is
+    /// compared through the model's caller automaton (op `GT`, `seenAfter`)
+    fn timeout_mode(&self) -> bool {
+        self.pol == Pol::Always && self.max_wait_us >= 1_000_000
+    }
     fn single(max_size: usize, max_entries: usize, faults: Vec<(usize, Outcome)>, groups: Vec<Vec<Msg>>) -> Workload {
         Workload { pol: Pol::Always, cfg_via_json: false, max_wait_us: 200, no_yield: false, max_size, max_entries, incs: vec![Inc { faults, dead: None, groups, ending: Ending::End, spawn_list_fails: false }] }
     }
@@ -378,6 +389,7 @@ fn ack_name(r: &Result<(), WalError>) -> &'static str {
         Err(WalError::Io(_)) => "io",
         Err(WalError::DiskFull) => "full",
         Err(WalError::PartialWrite { .. }) => "torn",
+        Err(WalError::FsyncFailed(m)) if m == "WAL write timed out" => "timeout", // the caller's 5 s deadline
         Err(WalError::FsyncFailed(_)) => "fsync",
         Err(_) => "other",
     }
@@ -408,6 +420,7 @@ fn run_real(wl: &Workload) -> RunResult {
         let pol = wl.pol;
         let crash_next = inc.ending == Ending::Crash;
         let no_yield = wl.no_yield;
+        let burst_pause_us = if wl.timeout_mode() { wl.max_wait_us + 10_000 } else { 10_000 };
         let want_policy = cfg.fsync_policy;
         store.inner.lock().unwrap().list_plan.clear();
         if inc.spawn_list_fails {
@@ -500,7 +513,7 @@ fn run_real(wl: &Workload) -> RunResult {
                 // callers that wait for nothing (tick, truncate, fire-and-forget) return at once: let the
                 // actor finish this burst (incl. its group-commit wait) before the next one is sent.
                 // The clock is paused, so this costs no real time.
-                tokio::time::sleep(Duration::from_millis(10)).await;
+                tokio::time::sleep(Duration::from_micros(burst_pause_us)).await;
             }
             // Always: every burst ends flushed, so the final flush of shutdown() issues no I/O; it only
             // stops the actor (also before a crash).  EverySecond: shutdown() fsyncs once more if
@@ -576,7 +589,7 @@ fn recover_ids_checked(img: &[(String, Vec<u8>)], by_data: &HashMap<(Vec<u8>, u6
 }
 
 fn op_line(wl: &Workload, bases: &[usize], spawn_failed: &[bool]) -> String {
-    let head = if wl.pol == Pol::Always { "G".to_string() } else { format!("GP {}", wl.pol.letter()) };
+    let head = if wl.timeout_mode() { format!("GT {}", wl.max_wait_us) } else if wl.pol == Pol::Always { "G".to_string() } else { format!("GP {}", wl.pol.letter()) };
     let mut s = format!("{} {} {} {} {} {} {} K {}", head, CODE_SYNCS_BEFORE_DROP as u8, CODE_TICK_SYNCS as u8, CODE_WAL_FORMAT, CODE_RESTART_REUSES_SEQ as u8, wl.max_size, wl.max_entries, wl.incs.len());
     for (k, inc) in wl.incs.iter().enumerate() {
         let base = bases.get(k).cloned().unwrap_or(0);
@@ -712,6 +725,15 @@ fn run_workload(wl: &Workload, out: &mut Out, source: &str) {
         out.count("burst:one-caller-no-yield(mailbox capacity crossed)");
     }
     out.count(&format!("group_commit_max_wait_us:{}", wl.max_wait_us));
+    for (_, a, _) in &acks {
+        if *a == "timeout" {
+            out.count("caller:ack-timeout(5s)");
+            TIMEOUTS_SEEN.fetch_add(1, std::sync::atomic::Ordering::Relaxed);
+        }
+    }
+    if wl.timeout_mode() {
+        out.count(if wl.max_wait_us > 5_000_000 { "timeout-mode:wait>5s" } else { "timeout-mode:wait<5s" });
+    }
     if r.actor_panicked {
         out.violation("C09:actor-panicked", "the WAL actor task panicked", json!({"workload": replay}));
     }
@@ -926,7 +948,15 @@ fn gen_workload(rng: &mut Rng, next_id: &mut u64) -> Workload {
         _ => 1 << 20,
     };
     let max_entries = *rng.pick(&[0usize, 1, 2, 3, 8, 64]);
-    Workload { pol, cfg_via_json: rng.chance(1, 4), max_wait_us: *rng.pick(&[0u64, 200, 200, 5000]), no_yield: false, max_size, max_entries, incs }
+    let mut wl = Workload { pol, cfg_via_json: rng.chance(1, 4), max_wait_us: *rng.pick(&[0u64, 200, 200, 5000]), no_yield: false, max_size, max_entries, incs };
+    // a group-commit wait around / beyond the callers' 5 s ack timeout (config corner: nothing bounds it)
+    if pol == Pol::Always && rng.chance(1, 8) {
+        wl.max_wait_us = *rng.pick(&LONG_WAITS_US);
+        if rng.chance(1, 2) {
+            wl.max_entries = *rng.pick(&[2usize, 3, 8, 64]);
+        }
+    }
+    wl
 }
 
 
@@ -1194,6 +1224,25 @@ pub fn run(a: &Args) {
                     incs: vec![Inc { faults: vec![], dead: None, groups: vec![g], ending: Ending::End, spawn_list_fails: false }] };
                 run_workload(&wl, &mut out, "corpus:one-caller-floods-the-mailbox");
             }
+        }
+    }
+    // the callers' 5 s ack timeout (Props/C09Timeout.lean) on the real actor, virtual clock: a group-commit wait
+    // just below 5 s -> the callers hear the ack; just above / far above -> "WAL write timed out" while the
+    // actor flushes later (the entry is durable: a write reported failed may survive); a batch cut by
+    // max_entries or a Shutdown is answered at once whatever the wait
+    {
+        let before_t = TIMEOUTS_SEEN.load(std::sync::atomic::Ordering::Relaxed);
+        for (wait, max_entries) in [(4_998_000u64, 8usize), (5_002_000, 8), (10_000_000, 8), (10_000_000, 2), (60_000_000, 64)] {
+            let g1 = vec![Msg::Durable(mk_write(next_id + 1, 1, 1)), Msg::Durable(mk_write(next_id + 2, 2, 1)), Msg::Durable(mk_write(next_id + 3, 3, 1))];
+            let g2 = vec![Msg::Durable(mk_write(next_id + 4, 4, 1)), Msg::Shutdown];
+            next_id += 4;
+            let wl = Workload { pol: Pol::Always, cfg_via_json: false, max_wait_us: wait, no_yield: false, max_size: 200, max_entries,
+                incs: vec![Inc { faults: vec![], dead: None, groups: vec![g1], ending: Ending::Clean, spawn_list_fails: false },
+                           Inc { faults: vec![], dead: None, groups: vec![g2], ending: Ending::End, spawn_list_fails: false }] };
+            run_workload(&wl, &mut out, "corpus:ack-timeout");
+        }
+        if TIMEOUTS_SEEN.load(std::sync::atomic::Ordering::Relaxed) == before_t {
+            out.violation("C09:coverage:ack-timeout-not-driven", "no write_durable caller ran into its 5 s ack timeout on the corpus workloads with group_commit_max_wait > 5 s", json!({}));
         }
     }
     for i in 0..(a.n / 25).max(12) {
